@@ -2,7 +2,7 @@
    (same tests, same order of writes).  The error monad does NOT roll back: an error keeps the
    state reached so far (C12 is about whether the code validates before it writes).
    Handles are what Python entity objects are: an address, the nix parent, the kind. *)
-From NixV Require Import Base.Prelude H5.Store Gen.Touch.
+From NixV Require Import Base.Prelude H5.Store Gen.Touch Pure.Bfs.
 Open Scope N_scope.
 
 Inductive ekind := KFile | KBlock | KGroup | KDataArray | KTag | KMultiTag | KFeature
@@ -22,6 +22,11 @@ Definition err_code (e : err) : N :=
              | ERuntime => 6 | EReadOnly => 7 | EOther => 8 end.
 
 (* node, kind, the nix parent's node (_parent) and that parent's parent (_parent._parent) *)
+(* observation tokens (results of probes and searches, the canonical walk) *)
+Inductive wtok := WN (n : Z) | WT (t : tok) | WNone.
+Definition w_opt_tok (o : option tok) : wtok := match o with Some t => WT t | None => WNone end.
+Definition b2w (b : bool) : wtok := WN (if b then 1 else 0).
+
 Record handle := mkH { ha : addr; hk : ekind; hown : addr; hown2 : addr }.
 
 Record st := mkSt {
@@ -279,7 +284,7 @@ Definition api_create (ph : N) (c : ckind) (name type : tok) (payload : list Z) 
       dup <- rd (fun s => in_group s (child s pa (TS cg)) name) ;;
       guard (negb dup) EDup ;;;
       r <- entity_create_new pa cg name type now ;;
-      new_handle (mkH (fst r) KSource pa (hown p))
+      new_handle (mkH (fst r) KSource pa (match hk p with KBlock => pa | _ => hown2 p end))
   | CGroups | CDataArrays | CTags =>
       check_name_type name type ;;;
       dup <- rd (fun s => in_group s (child s pa (TS cg)) name) ;;
@@ -428,7 +433,12 @@ Definition api_lookup (ph : N) (c : ckind) (k0 : key) : M N :=
   guard (has_container (hk p) c) EOther ;;;
   s <- get_st ;;
   r <- lift_sum (container_get (sto s) (child (sto s) (ha p) (TS (cgroup (hk p) c))) k (hs s)) ;;
-  new_handle (mkH (snd r) (ckind_item c) (ha p) (hown p)).
+  new_handle (mkH (snd r) (ckind_item c) (ha p)
+                  (match c, hk p with
+                   | CSources, KBlock => ha p        (* a source's owning block *)
+                   | CSources, _ => hown2 p
+                   | _, _ => hown p
+                   end)).
 
 (* the nix parent a link list hands to the items it instantiates: the block
    (LinkContainer._inst_item uses itemstore._parent) *)
@@ -437,7 +447,7 @@ Definition api_lookup_link (ph : N) (l : lkind) (k0 : key) : M N :=
   guard (has_list (hk p) l) EOther ;;;
   s <- get_st ;;
   r <- lift_sum (linklist_get (sto s) (child (sto s) (ha p) (TS (lname l))) k) ;;
-  new_handle (mkH (snd r) (lkind_item l) (hown p) 0%nat).
+  new_handle (mkH (snd r) (lkind_item l) (hown p) (match l with LSources => hown p | _ => 0%nat end)).
 
 (* ---- sections / sources below an entity, breadth first (util/find.py), fuel-bounded *)
 Definition sub_entities (s : store) (cn : str) (a : addr) : list addr :=
@@ -612,6 +622,116 @@ Definition api_set_attr (ph : N) (a : akind) (v : option tok) (now : Z) : M unit
   | ALinkType => fail EOther
   end.
 
+(* ---- searches, parents, referring lists (util/find.py, section.py, source.py) *)
+Fixpoint tree_of (fuel : nat) (s : store) (cn : str) (a : addr) : tree addr :=
+  match fuel with
+  | O => T a []
+  | S f => T a (map (tree_of f s cn) (sub_entities s cn a))
+  end.
+Definition tree_depth : nat := 48.
+(* the tree below a handle: a File keeps its top-level sections in "metadata" *)
+Definition find_tree (s : store) (k : ekind) (a : addr) : tree addr :=
+  match k with
+  | KFile => T a (map (tree_of tree_depth s s_sections) (sub_entities s s_metadata a))
+  | KSection => tree_of tree_depth s s_sections a
+  | _ => tree_of tree_depth s s_sources a
+  end.
+Inductive ffilt := FAll | FName (t : tok) | FType (t : tok).
+Definition ffilt_fn (s : store) (f : ffilt) (a : addr) : bool :=
+  match f with
+  | FAll => true
+  | FName t => opt_eqb tok_eqb (entity_name s a) (Some t)
+  | FType t => opt_eqb tok_eqb (attr_tok s a k_type) (Some t)
+  end.
+Definition ids_toks (s : store) (l : list addr) : list wtok := map (fun a => w_opt_tok (entity_id s a)) l.
+
+(* find_sections / find_sources(filtr, limit); limit None = sys.maxsize *)
+Definition api_find (ph : N) (limit : option Z) (f : ffilt) : M (list wtok) :=
+  p <- the_handle ph ;;
+  guard (match hk p with KFile | KBlock | KSection | KSource => true | _ => false end) EOther ;;;
+  s <- get_st ;;
+  let t := find_tree (sto s) (hk p) (ha p) in
+  let lim := match limit with None => size t | Some z => Z.to_nat z end in
+  let entity_root := match hk p with KSection | KSource => true | _ => false end in
+  ret (ids_toks (sto s) (Bfs.find entity_root t lim (ffilt_fn (sto s) f))).
+
+(* Container.__contains__(entity): a member of that name carrying that id *)
+Definition cont_has_entity (s : store) (c : option addr) (x : addr) : bool :=
+  match entity_name s x, c with
+  | Some n, Some ca =>
+      if tok_has_slash n || tok_empty n then false
+      else match child s ca n with
+           | Some y => opt_eqb tok_eqb (entity_id s y) (entity_id s x)
+           | None => false
+           end
+  | _, _ => false
+  end.
+Fixpoint flatten {A} (t : tree A) : list A :=       (* pre-order *)
+  match t with T a cs => a :: flat_map flatten cs end.
+
+(* Section.parent (breadth-first over the file's sections) *)
+Definition section_parent (s : store) (x : addr) : option addr :=
+  let tops := sub_entities s s_metadata 0%nat in
+  if existsb (fun t => opt_eqb tok_eqb (entity_id s t) (entity_id s x)) tops then None
+  else
+    let ft := T 0%nat (map (tree_of tree_depth s s_sections) tops) in
+    let order := bfs (fsize (kids ft)) (size ft) (tag 1 (kids ft)) in
+    List.find (fun sect => cont_has_entity s (child s sect (TS s_sections)) x) order.
+(* Source.parent_source: depth-first through the block's sources *)
+Definition source_parent (s : store) (blk x : addr) : option addr :=
+  if cont_has_entity s (child s blk (TS s_sources)) x then None
+  else match entity_id s x with
+       | None => None
+       | Some i =>
+           let pre := flat_map (fun t => flatten (tree_of tree_depth s s_sources t)) (sub_entities s s_sources blk) in
+           List.find (fun src => match find_by_id s i (cont_links s (child s src (TS s_sources))) with
+                            | Some _ => true | None => false end) pre
+       end.
+
+Inductive pkind := PParent | PBlock.
+Definition api_parent (ph : N) (w : pkind) : M (list wtok) :=
+  p <- the_handle ph ;;
+  s <- get_st ;;
+  match hk p, w with
+  | KSection, PParent => ret [match section_parent (sto s) (ha p) with
+                              | Some a => w_opt_tok (entity_id (sto s) a) | None => WNone end]
+  | KSource, PParent => ret [match source_parent (sto s) (hown2 p) (ha p) with
+                             | Some a => w_opt_tok (entity_id (sto s) a) | None => WNone end]
+  | KSource, PBlock => ret [w_opt_tok (entity_id (sto s) (hown2 p))]
+  | _, _ => fail EOther
+  end.
+
+(* referring_* : the inverse of the metadata / source links *)
+Definition blocks_of (s : store) : list addr := sub_entities s s_data 0%nat.
+Definition members (s : store) (c : ckind) : list addr :=
+  match c with
+  | CBlocks => blocks_of s
+  | CSources => flat_map (fun b => flat_map (fun t => flatten (tree_of tree_depth s s_sources t))
+                                            (sub_entities s s_sources b)) (blocks_of s)
+  | _ => flat_map (fun b => sub_entities s (cname c) b) (blocks_of s)
+  end.
+Definition api_referring (ph : N) (c : ckind) : M (list wtok) :=
+  p <- the_handle ph ;;
+  s <- get_st ;;
+  match hk p with
+  | KSection =>
+      guard (match c with CBlocks | CGroups | CDataArrays | CTags | CMultiTags | CSources => true | _ => false end) EOther ;;;
+      ret (ids_toks (sto s)
+             (filter (fun e => match child (sto s) e (TS s_metadata) with
+                               | Some m => opt_eqb tok_eqb (entity_id (sto s) m) (entity_id (sto s) (ha p))
+                               | None => false end) (members (sto s) c)))
+  | KSource =>
+      guard (match c with CDataArrays | CTags | CMultiTags => true | _ => false end) EOther ;;;
+      (* block.<container> filtered by `self in x.sources` (link name = id) *)
+      ret (ids_toks (sto s)
+             (filter (fun e => match entity_id (sto s) (ha p) with
+                               | Some i => match link_get i (cont_links (sto s) (child (sto s) e (TS s_sources))) with
+                                           | Some _ => true | None => false end
+                               | None => false end)
+                     (sub_entities (sto s) (cname c) (hown2 p))))
+  | _ => fail EOther
+  end.
+
 (* Entity.force_created_at(t) / force_updated_at(t) *)
 Definition api_force (ph : N) (created : bool) (t : Z) : M unit :=
   p <- the_handle ph ;;
@@ -623,9 +743,6 @@ Definition api_reopen (readonly : bool) : M N :=
   fun s => (mkSt (sto s) [mkH 0%nat KFile 0%nat 0%nat] (auto s) readonly (nid s), inl 0).
 
 (* ---- observation tokens (results of probes, the canonical walk) *)
-Inductive wtok := WN (n : Z) | WT (t : tok) | WNone.
-Definition w_opt_tok (o : option tok) : wtok := match o with Some t => WT t | None => WNone end.
-Definition b2w (b : bool) : wtok := WN (if b then 1 else 0).
 
 (* c[key] as tokens: 1, id of the member  /  2, error class *)
 Definition res_toks (s : store) (r : (tok * addr) + err) : list wtok :=
@@ -694,6 +811,9 @@ Inductive op :=
 | OSetLink (p : N) (r : rkind) (x : option N)
 | OSetAttr (p : N) (a : akind) (v : option tok)
 | OForce (p : N) (created : bool) (t : Z)
+| OFind (p : N) (limit : option Z) (f : ffilt)
+| OParent (p : N) (w : pkind)
+| OReferring (p : N) (c : ckind)
 | OProbe (p : N) (c : ckind)
 | OProbeLink (p : N) (l : lkind)
 | OSetAuto (b : bool)
@@ -725,6 +845,9 @@ Definition exec (o : op) (now : Z) : st -> st * ores :=
   | OSetLink p r x => wrapU (api_set_link p r x now)
   | OSetAttr p a v => wrapU (api_set_attr p a v now)
   | OForce p c t => wrapU (api_force p c t)
+  | OFind p l f => wrapT (api_find p l f)
+  | OParent p w => wrapT (api_parent p w)
+  | OReferring p c => wrapT (api_referring p c)
   | OProbe p c => wrapT (api_probe p c)
   | OProbeLink p l => wrapT (api_probe_link p l)
   | OSetAuto b => fun s => (mkSt (sto s) (hs s) b (ro s) (nid s), ROk None)
